@@ -57,7 +57,8 @@ def tr_qastle(text, backend, mds):
 
 
 def worker(args):
-    backend, texts, pool, mds = args
+    backend, texts, pool, mds = args[:4]
+    only_qastle = len(args) > 4 and args[4] == "qastle-only"
     stats = Counter()
     bad = []
     for text in texts:
@@ -75,16 +76,16 @@ def worker(args):
             vs.append(("qastle", text, None))
             stats["qastle_errors"] += 1
         # (b) alpha
-        for vt, info in variants.alpha_variants(tree, pool):
+        for vt, info in ([] if only_qastle else variants.alpha_variants(tree, pool)):
             if vt == text:
                 continue
             vs.append(("alpha:" + ",".join(info["names"]), vt, tr(vt, backend, mds)))
         # (c) metadata placement (the declarations are carried at another position)
-        for vt, info in variants.metadata_variants(tree, list(mds)):
+        for vt, info in ([] if only_qastle else variants.metadata_variants(tree, list(mds))):
             a = ast.fix_missing_locations(parse_query(vt))
             vs.append((f"md@{info['md_position']}", vt, translate_ast(a, backend, query_text=vt)))
         # (d) fusion
-        for vt, info in variants.fusion_variants(tree):
+        for vt, info in ([] if only_qastle else variants.fusion_variants(tree)):
             vs.append((f"fused-{info['fused']}", vt, tr(vt, backend, mds)))
         for kind, vt, pkg in vs:
             names = []
@@ -99,6 +100,11 @@ def worker(args):
             ov = outcome(pkg)
             if pkg.ok and base.ok and pkg.files != base.files:
                 stats["raw_text_differs"] += 1
+            if kind == "qastle" and ov[0] == "exc" and ob[0] == "exc":
+                # refused on both wires (e.g. 1e999: a float constant on one wire, the bare name `inf` on the other): the
+                # property is about the package, and there is none either way
+                stats["refused_on_both_wires"] += 1
+                continue
             if ov != ob:
                 d = first_diff(pkg.files, base.files) if (pkg.ok and base.ok) else ""
                 only_msg = False
@@ -165,6 +171,30 @@ def md_value_family(backend):
     return out
 
 
+def nary_family(backend):
+    "and / or chains of three and more operands, flat and parenthesised either way (qastle text always nests them)"
+    a = qgen.ALPHA[backend]
+    S = f"e.{a.primary}('A')"
+    ops = ["j.pt() > 1", "j.eta() > 0", "j.nTrk() > 1", "j.isGood()", "j.phi() > 0"]
+    out = []
+    for op in ("and", "or"):
+        for n in (3, 4, 5):
+            flat = f" {op} ".join(ops[:n])
+            left = ops[0]
+            for o in ops[1:n]:
+                left = f"({left} {op} {o})"
+            right = ops[n - 1]
+            for o in reversed(ops[:n - 1]):
+                right = f"({o} {op} {right})"
+            for body in (flat, left, right):
+                out.append(f"ds.Select(lambda e: {S}.Where(lambda j: {body}).Count())")
+                out.append(f"ds.Select(lambda e: {S}.Select(lambda j: (1 if {body} else 0)))")
+    out.append(f"ds.Select(lambda e: {S}.Where(lambda j: j.pt() > 1 and (j.eta() > 0 or j.nTrk() > 1 or j.isGood()) and j.phi() > 0).Count())")
+    out.append(f"ds.Where(lambda e: {S}.Count() > 0 and {S}.Count() > 1 and {S}.First().pt() > 1).Select(lambda e: {S}.Count())")
+    out.append(f"ds.Where(lambda e: {S}.Count() == 0 or {S}.Count() == 1 or {S}.First().pt() > 1).Select(lambda e: {S}.Count())")
+    return out
+
+
 def family_programs(backend, tier):
     """Programs of the hand-enumerated families (calls with arguments at mixed loop depths, explicit Aggregate, tuples /
     lists / dictionaries carried between Selects): constructs the typed grammar has no production for.  Quick: every 97th (ATLAS) / 389th (CMS); thorough: every 7th / 29th (about 185 variants per program)."""
@@ -193,9 +223,27 @@ def main(tier="quick"):
         texts += shadow_family(backend)
         texts += family_programs(backend, tier)
         texts += md_value_family(backend)
+        texts += nary_family(backend)
         nprog += len(texts)
         for i in range(0, len(texts), 8):
             work.append((backend, texts[i:i + 8], pool, mds))
+    # every (literal, position) program of the constant-fidelity check C18 through the qastle wire: integers at the 32 / 64
+    # bit edges, floats in every notation, all short strings over an alphabet with quotes, backslash, newline, non-ASCII
+    from mc.checks import c18
+    for backend in (("atlas",) if tier == "quick" else tuple(plan)):
+        cs, md18 = c18.build_cases("quick", backend)
+        lt = [c["query"] for c in cs]
+        nprog += len(lt)
+        for i in range(0, len(lt), 40):
+            work.append((backend, lt[i:i + 40], pool, md18, "qastle-only"))
+    # every program of the hand-enumerated families through the qastle wire only (their full variant sets are sampled above)
+    from mc.lang import aggfam, argscope, mixfam, structfam
+    for backend in (("atlas",) if tier == "quick" else tuple(plan)):
+        mdsb = tuple(qgen.method_metadata(qgen.ALPHA[backend]))
+        ft = [q for fam in (argscope, mixfam, aggfam, structfam) for _c, q in fam.queries(backend) if "vmtwice(" not in q]
+        nprog += len(ft)
+        for i in range(0, len(ft), 40):
+            work.append((backend, ft[i:i + 40], pool, mdsb, "qastle-only"))
     if tier != "quick":
         # a second sweep with a pool that contains the names func_adl's own lowering uses for its lambdas (acc, v)
         g = qgen.Gen("atlas")
